@@ -3,7 +3,8 @@
 cd /verif
 for d in seeded-benign/*/; do
   id=$(basename "$d")
-  case "$id" in A-*) props="C09 C06 C11 C12 C10 C20";; B-*) props="C10 C11 C12 C14 C19";; *) props="C06 C11 C19 C20 C12 C10";; esac
+  [ -n "${ONLY:-}" ] && case "$id" in $ONLY) ;; *) continue;; esac
+  case "$id" in A-*) props="C09 C06 C11 C12 C10 C20";; B-*) props="C10 C11 C12 C14 C19";; w7-B1-*) props="C10 C11 C12 C14 C19";; w7-B2-*) props="C09 C06 C11 C12 C10 C20 C14";; *) props="C06 C11 C19 C20 C12 C10";; esac
   for p in $props; do
     res=$(./try_mutant.sh "/verif/$d/patch.diff" "$p" 2>&1 | head -2 | tr '\n' ' ')
     echo "$id $p $res"
